@@ -152,7 +152,7 @@ def seeded_tracks(ctx, prop, n, **kw):
         case = {"id": f"{prop}-s{k}", "res": res, "body": body, "tempo": tempo}
         if k % 3 == 2:
             import tm as _tm
-            case["song"] = _tm.random_metadata_lines(r)
+            case["song"] = [f"Resolution = {res}"] + _tm.random_metadata_lines(r)      # (the first Resolution line counts; a later one may follow)
         if k % 4 == 1:
             # blank, whitespace-only and unparsable lines in the [Events] section before this one and inside the section itself
             # (they are reported and skipped; what the section's note lines mean does not depend on them)
